@@ -58,6 +58,12 @@ VERUS_TRUST = [
     'extraction rules R1-R7 (lib/rx.py, lib/r4.py): attributes/docs dropped, debug blocks kept, panics -> obligations, the listed iterator shapes desugared to index loops, tuple assignments split; nothing else changes',
     'machine arithmetic: exec integers are bit-precise in Verus; spec-level sums are mathematical; usize is 64-bit (global size_of usize == 8)',
 ]
+CORE_TRUST = [
+    'dependency-flow contracts of the transform-domain HAL operations (vx/prelude/dft_api.rs, core_api.rs): ASSUMED; for vec_znx_dft_{copy,add_assign,apply} they abstract the limb-selection contracts proved in units vec_znx_dft / vec_znx_dft_ntt120, for vmp / idft / big-normalise / big-add they restate the documented size rules (every limb of res written)',
+    'A-ALIGN: every size query is a multiple of the 64-byte arena alignment and the arena starts aligned (true for N >= 8): a take of b bytes costs exactly b',
+    'A-VMP-RES / A-SIZES: the backend vmp scratch query is monotone in the operand limb count, independent of the result limb count, and all size queries stay below 2^56 bytes',
+    'transform-domain containers reduced to shape + ghost per-limb dependency sets (vx/prelude/dft_layouts.rs); depl(limb) is an uninterpreted attribute of coefficient-domain limb contents',
+]
 ZNX_FUNCS = ['znx_add_ref', 'znx_add_assign_ref', 'znx_sub_ref', 'znx_sub_assign_ref', 'znx_sub_negate_assign_ref', 'znx_negate_ref',
              'znx_negate_assign_ref', 'znx_copy_ref', 'znx_zero_ref', 'znx_rotate', 'znx_automorphism_ref', 'znx_switch_ring_ref']
 KERNEL_QUICK = [1, 12, 17, 52, 62]
@@ -96,13 +102,13 @@ PROPS['C11'] = dict(
     level='proof',
     technique='Verus postconditions that define every limb of the selected column from the inputs only, plus frame clauses over all other limb blocks, on the extracted real text',
     level_text='Unbounded proof for the coefficient-domain column operations: each ensures gives final(res).limb(col, j) for all j < size as a function of the read-only inputs (no old(res) on the right-hand side for out-of-place ops) and frame_ok: every block outside (col, 0..size) is unchanged.',
-    level_note='Covers the vec_znx_* reference operations and the transform-domain wrappers of vec_znx_dft.rs (fft64 and ntt120, numeric kernels abstract) under contract (see functions_under_contract); idft/svp/vmp/convolution and the core layer are not covered by this check.',
-    units=[V('vec_znx_arith'), V('vec_znx_ring'), V('vec_znx_merge'), V('vec_znx_split'), V('vec_znx_big'), V('vec_znx_normalize'), V('vec_znx_dft'), V('vec_znx_dft_ntt120'), V('glwe_ops'),
+    level_note='Covers the vec_znx_* reference operations, the transform-domain wrappers of vec_znx_dft.rs (fft64 and ntt120, numeric kernels abstract), the GLWE operation wrappers, and -- core layer, as a dependency-flow proof over assumed HAL flow contracts -- gglwe_product_dft, glwe_keyswitch_internal and glwe_keyswitch: with nothing required of the previous contents of res or of the scratch arena, no limb of the result depends on stale bytes (the accumulator taken from scratch must be cleared before the digit-grouped product: for dsize >= 3 its last limbs are only ever added to); idft/svp/vmp/convolution kernels themselves and the other core operations are not covered by this check.',
+    units=[V('vec_znx_arith'), V('vec_znx_ring'), V('vec_znx_merge'), V('vec_znx_split'), V('vec_znx_big'), V('vec_znx_normalize'), V('vec_znx_dft'), V('vec_znx_dft_ntt120'), V('glwe_ops'), V('core_keyswitch'),
            K('poulpy-cpu-ref', 'verif_kani::c11_ak', ['c11_ak_dft_apply__a3_r2_step2_off1', 'c11_ak_dft_apply__a2_r3_step1_off0', 'c11_ak_dft_apply__a3_r3_step2_off0', 'c11_ak_dft_apply__a2_r2_step1_off1'],
              cls='bounded', tier='thorough', timeout=1500, bound='FFT64Ref, N=8, two output columns, (a_size, res_size, step, offset) constant per harness; numeric kernels abstract',
              functions=['VecZnxDftApply::vec_znx_dft_apply (fft64 reference, real shape logic; fft_ref / reim_from_znx_i64_ref / table fills replaced by bit-level mixers)'],
              trusted=['abstract kernels: fft_ref -> identity, reim_from_znx_i64_ref -> bit-cast, fill_fft4/ifft4_omegas -> no-op (two-run determinism and frame only)'])],
-    trusted_base=VERUS_TRUST,
+    trusted_base=VERUS_TRUST + CORE_TRUST,
     assumptions=['operands are distinct objects from the result (Rust borrow rules: &mut res vs &a)'],
     remainder='idft_apply*, svp_*, vmp_* (two-run harness written but CBMC times out), cnv_*, NTT120 big accumulator, cross-radix normalisation, shifts, core-layer operations',
 )
@@ -141,19 +147,19 @@ PROPS['C12'] = dict(
     level='proof',
     technique='Kani contract check of the real arena allocator (take_slice_aligned / take_slice_default / scratch_available) with symbolic misalignment, buffer and take lengths; Verus obligations on scratch slices of the verified column operations',
     level_text='Allocator: complete proof of address/length/alignment/disjointness postconditions and of the availability ledger (avail decreases by exactly len + alignment padding; no padding when len is a multiple of 64); no panic whenever the request fits; the out-of-space panic is reachable only when it does not fit (should_panic harness). Coefficient-domain in-place ops (rotate/automorphism/mul_xp_minus_one/normalize _assign): unbounded Verus chain size query -> HAL default glue (take_slice of *_tmp_bytes/8 elements) -> scratch precondition of the reference operation.',
-    level_note='Declared-size-suffices for DFT-family and core operations is NOT decided here (needs exact-window harnesses); for ring degrees N < 8 limb byte sizes are not multiples of 64 and padding is not budgeted by size queries (DESIGN §6-4).',
+    level_note='Core layer: glwe_keyswitch_tmp_bytes / glwe_keyswitch_internal_tmp_bytes / gglwe_product_dft_tmp_bytes are proved sufficient for glwe_keyswitch, glwe_keyswitch_internal and gglwe_product_dft (every take and every inner availability assertion holds with exactly the advertised bytes, unbounded in all shape parameters) under A-ALIGN and A-VMP-RES; the other DFT-family and core operations are NOT decided here; for ring degrees N < 8 limb byte sizes are not multiples of 64 and padding is not budgeted by size queries (DESIGN §6-4).',
     units=[
         K('poulpy-cpu-ref', 'hal_defaults::scratch::verif_kani', ['c12_take_slice_aligned_contract', 'c12_take_slice_aligned_panics_iff_too_small',
           'c12_take_slice_default_u8', 'c12_take_slice_default_i64', 'c12_take_slice_default_f64', 'c12_take_slice_default_i128'], cls='complete', timeout=600,
           functions=['hal_defaults::scratch::take_slice_aligned', 'HalScratchDefaults::take_slice_default', 'HalScratchDefaults::scratch_available_default', 'HalScratchDefaults::scratch_from_bytes_default']),
-        V('vec_znx_ring'), V('vec_znx_normalize'), V('hal_glue'), V('glwe_ops'),
+        V('vec_znx_ring'), V('vec_znx_normalize'), V('hal_glue'), V('glwe_ops'), V('core_keyswitch'),
         K('poulpy-cpu-ref', 'verif_kani::c12_window', [f'c12_window_{op}__n4' for op in ('normalize_assign', 'rotate_assign', 'automorphism_assign', 'mul_xp_minus_one_assign', 'lsh_assign', 'rsh_assign')],
           cls='bounded', timeout=1200, bound='N=4 (limb byte size 32: not a multiple of the 64-byte alignment), size 2',
           functions=['HAL traits VecZnx{Normalize,Rotate,Automorphism,MulXpMinusOne,Lsh,Rsh}Assign with a scratch of exactly the companion *_tmp_bytes; two runs with different scratch contents']),
         K('poulpy-cpu-ref', 'verif_kani::c12_window', ['c12_window_normalize_assign__n2', 'c12_window_rotate_assign__n2', 'c12_window_rsh_assign__n2', 'c12_window_normalize_assign__n8', 'c12_window_rsh_assign__n8'],
           cls='bounded', tier='thorough', timeout=1200, bound='N=2, N=8'),
     ],
-    trusted_base=VERUS_TRUST,
+    trusted_base=VERUS_TRUST + CORE_TRUST,
     assumptions=['buffer lengths <= 192 bytes in the allocator harnesses (the code is length-generic: no loop, pure pointer arithmetic)'],
     remainder='(operation, *_tmp_bytes) pairs of the DFT family and of the core/bin-fhe/ckks layers; monotonicity of size queries',
 )
